@@ -39,7 +39,7 @@ def run(tier):
 
 
 TABLES = [("flows", "@taint_flows")]
-WITNESSES = ("t_two_sinks", "t_two_sources")
+WITNESSES = ()
 
 
 def taint_programs():
